@@ -61,15 +61,6 @@ theorem optRel_elim {α : Type} {R : α → α → Prop} {o1 o2 : Option α} (h 
   | none => exact Or.inl ⟨rfl, rfl⟩
   | some hab => exact Or.inr ⟨_, _, rfl, rfl, hab⟩
 
-/-- `if c then m else raise e` with value-dependent `c`: when both runs complete, both took `m` -/
-theorem Obl.iteElseRaise {α} {R : α → α → Prop} {c1 c2 : Prop} [Decidable c1] [Decidable c2] {e1 e2 : Err}
-    {b1 b2 : M α} (hb : Obl R b1 b2) : Obl R (if c1 then b1 else raise e1) (if c2 then b2 else raise e2) := by
-  split
-  · split
-    · exact hb
-    · exact Obl.raiseR
-  · exact Obl.raiseL
-
 /-! ## dictionaries -/
 theorem ValsRel.get? : ∀ {v1 v2 : Vals}, ValsRel v1 v2 → ∀ x, OptRel ObjRel (v1.get? x) (v2.get? x)
   | _, _, .nil, _ => .none
@@ -323,7 +314,7 @@ theorem mergeT_obl {c1 c2 : LinComb} (hc : lcEq c1 c2) : ∀ {t1 t2 f1 f2 : TVal
   | .node ts1, .node ts2, .node fs1, .node fs2, ht, hf, n => by
     simp only [TvRel] at ht hf
     unfold mergeT
-    refine Obl.bind (mergeTL_obl hc ht hf n) (fun p1 p2 hp => ?_)
+    refine Obl.iteElseRaise (Obl.bind (mergeTL_obl hc ht hf n) (fun p1 p2 hp => ?_))
     exact Obl.pure ⟨by simp only [TvRel]; exact hp.1, hp.2⟩
   | .node _, .node _, .leaf _, .leaf _, _, _, n => by unfold mergeT; exact Obl.raiseL
   | .leaf _, .leaf _, .node _, .node _, _, _, n => by unfold mergeT; exact Obl.raiseL
